@@ -1,6 +1,7 @@
 package main
 
 import (
+	"math"
 	"fmt"
 	"strings"
 
@@ -30,6 +31,23 @@ func runHashOps(h hash.Hasher, oneShot func([]byte) []byte, ops []string, datas 
 	return guard(func() string {
 		var sb strings.Builder
 		sb.WriteString("ok")
+		// digests are the caller's once returned: every other one is KEPT (not copied) and printed only after all the
+		// operations (a digest that aliases the hasher's state changes when the hasher is used again), the others are
+		// printed at once and then overwritten (a hasher that hands out its own state is disturbed by that)
+		var outs []func() string
+		nDig := 0
+		emit := func(d []byte) {
+			nDig++
+			if nDig%2 == 1 {
+				outs = append(outs, func() string { return hx(d) })
+			} else {
+				v := hx(d)
+				for i := range d {
+					d[i] ^= 0xA5
+				}
+				outs = append(outs, func() string { return v })
+			}
+		}
 		for _, op := range ops {
 			k := op
 			arg := ""
@@ -40,18 +58,24 @@ func runHashOps(h hash.Hasher, oneShot func([]byte) []byte, ops []string, datas 
 			case "w":
 				n, err := h.Write(datas[arg])
 				if err != nil || n != len(datas[arg]) {
-					sb.WriteString(" write-error")
+					outs = append(outs, func() string { return "write-error" })
 				}
 			case "s":
-				sb.WriteString(" " + hx(h.SumHash()))
+				emit(h.SumHash())
 			case "r":
 				h.Reset()
 			case "c":
 				in := append([]byte{}, datas[arg]...)
-				sb.WriteString(" " + hx(h.ComputeHash(in)))
+				emit(h.ComputeHash(in))
+				for i := range in {
+					in[i] = 0x5A
+				}
 			case "o":
-				sb.WriteString(" " + hx(oneShot(datas[arg])))
+				emit(oneShot(datas[arg]))
 			}
+		}
+		for _, o := range outs {
+			sb.WriteString(" " + o())
 		}
 		return sb.String()
 	})
@@ -220,7 +244,7 @@ func genC13kmac(c *Ctx, datas map[string][]byte) {
 	for l := 0; l <= 200; l++ {
 		run("kmac-custlen", lcgBytes(16, 6), lcgBytes(l, 7), 16, []string{"c:" + d1})
 	}
-	for _, out := range []int{-1000, -1, 0, 1, 31, 32, 127, 128, 167, 168, 169, 335, 336, 337, 1000} {
+	for _, out := range []int{math.MinInt64, -(1 << 62) + 128, -(1 << 61), -(1 << 60) - 1, -(1 << 32), -1000, -1, 0, 1, 31, 32, 127, 128, 167, 168, 169, 335, 336, 337, 1000} {
 		run("kmac-outlen", lcgBytes(20, 8), nil, out, []string{"c:" + d1, "w:" + d1, "s"})
 	}
 	if c.thorough() {
